@@ -26,9 +26,9 @@
 
 using pbt::Ctx; using pbt::Bytes;
 
-static std::string structural(Ctx &c, const gen::ZFile &z, Bytes &out) {
+static std::string structural(Ctx &c, const gen::ZFile &z, Bytes &out, bool keep_stored_digest) {
     ref::Header h = z.h; std::string d; size_t n = h.entries.size();
-    ref::EmitOpts eo; bool refresh_data_digest = c.chance(1, 3); Bytes body(z.file.begin() + z.h.total_size, z.file.end());
+    ref::EmitOpts eo; if (keep_stored_digest) { eo.stored_digest = z.h.header_digest; d += "(header NOT re-sealed: original stored digest kept) "; } bool refresh_data_digest = c.chance(1, 3); Bytes body(z.file.begin() + z.h.total_size, z.file.end());
     size_t nm = 1 + c.draw(1);
     for (size_t m = 0; m < nm; m++) {
         size_t i = c.pick(n); ref::Entry &e = h.entries[i];
@@ -61,17 +61,20 @@ static void prop(Ctx &c) {
     gen::ZFileOpts o; o.max_chunks = c.tier ? 12 : 8; o.max_chunk = c.tier ? 20000 : 4000; o.allow_empty = false;
     gen::ZFile z = gen::zfile(c, o);
     Bytes m; std::string md; bool structural_mut = c.boolean();
-    if (structural_mut) md = structural(c, z, m);
+    // a reader that pins the authentic header digest (as package managers do) must be at least as strict
+    bool pinned = c.rarely(3); lib::Pins pins; if (pinned) { pins.type = (int)z.h.hash_type; pins.digest_hex = lib::hex_of(z.h.header_digest); if (c.boolean()) pins.length = (long)z.h.total_size; }
+    if (structural_mut) md = structural(c, z, m, pinned && c.chance(2, 3));
     else { m = z.file; size_t nm = 1 + c.draw(1); for (size_t i = 0; i < nm; i++) md += gen::mutate_raw(c, m, z.h.total_size) + "; "; if (c.rarely(4)) { ref::reseal(m); md += "(header re-sealed) "; } }
     std::vector<size_t> rs = gen::rhistory(c);
-    c.desc << z.desc << " alterations{" << md << "} reads=" << gen::sizes_str(rs);
+    c.desc << z.desc << " alterations{" << md << "} reads=" << gen::sizes_str(rs) << (pinned ? " PINNED-OPEN" : "");
     if (m == z.file) { c.label("unchanged"); }
     // reference verdict
     ref::ParseResult pr = ref::parse(m); ref::Decoded dec; if (pr.ok) dec = ref::decode(m, pr.h);
     bool R = pr.ok && dec.ok;
     c.label(structural_mut ? "structural" : "raw"); c.label(pr.h.checksum_ok ? "past-header-gate" : "stopped-at-header-gate"); c.label(R ? "ref-accepts" : "ref-rejects");
     c.checkpoint();
-    lib::RResult rr = lib::read_file(m, rs, (size_t)64 << 20);
+    if (pinned) { md += "[opened with the original header digest pinned] "; c.label("pinned-open"); }
+    lib::RResult rr = lib::read_file(m, rs, (size_t)64 << 20, pinned ? &pins : nullptr);
     if (rr.open_ok && m != z.file) c.nontrivial(pbt::fnv1a(m.data(), m.size()));
     c.label(rr.all_ok() ? "lib-success" : !rr.open_ok ? "lib-open-fails" : !rr.read_ok ? "lib-read-fails" : "lib-close-fails");
     if (rr.all_ok()) {
